@@ -59,12 +59,35 @@ type Object struct {
 	Name   string
 	Props  []*Prop
 	Nested []*Elem // object / oneof / enum only
+	PSM    *ObjPSM // object only: `entity.entity = "Name"` / `entity.part = "KEYS"` written on a user-declared object
+}
+
+// ObjPSM is the entity annotation of a hand-written object. Part: keys state event data.
+type ObjPSM struct {
+	Entity string
+	Part   string
+}
+
+// Nums maps an option name to the number written in its body (`option X { number = 5 }`). The compiler numbers
+// options by position; the written number is carried by the source definition and ignored.
+type Nums map[string]int32
+
+func (n Nums) set(name string, v int32) Nums {
+	if v <= 0 {
+		return n
+	}
+	if n == nil {
+		n = Nums{}
+	}
+	n[name] = v
+	return n
 }
 
 type Enum struct {
 	Name   string
 	Prefix string // "" = not given
 	Opts   []string
+	Nums   Nums
 }
 
 type Prop struct {
@@ -131,6 +154,7 @@ type TRef struct {
 	Props  []*Prop
 	Prefix string
 	Opts   []string
+	Nums   Nums // inline enum
 }
 
 type Rule struct {
@@ -180,6 +204,7 @@ type Entity struct {
 	Keys      []*EKey
 	Data      []*Prop
 	Statuses  []string
+	StatusNums Nums
 	Events    []*Object
 	Commands  []*Service
 	Summaries []*Summary
